@@ -66,7 +66,7 @@ distinct by decoded-choice digest.",
     enums: &[],
     randoms: &[RandomDef {
         name: "requests",
-        cases: |t: Tier| t.pick(120_000, 12_000_000),
+        cases: |t: Tier| t.pick(300_000, 12_000_000),
         tape_len: 1_400,
         exec: None,
     }],
